@@ -177,7 +177,8 @@ class AccfgGen:
                 if p.get("stale_links") and r.random() < p["stale_links"]:
                     node["stale_yield"] = r.randint(1, 2)  # the last setups of the body were inserted after the threading: unlinked, not yielded
                 if p.get("head_launch") and r.random() < p["head_launch"]:
-                    node["head_launch"] = True  # the body first launches the configuration it was entered with (software-pipelined form)
+                    # the body first launches the configuration it was entered with (software-pipelined form), possibly guarded
+                    node["head_launch"] = r.choice([True, True, "if"])
             elif p.get("while_loops") and not node["carry"] and r.random() < p["while_loops"]:
                 node["as_while"] = True  # the same counted loop written as scf.while (a region op state tracing does not know)
             for c in node["carry"]:
@@ -344,8 +345,14 @@ def emit(ast, acc_names=None, vty="i32", decls=()) -> str:
             lv = first.get("lvals", [])
             lnames = ", ".join(f'"{n}"' for n in names[a].get("launch_fields", [])[: len(lv)])
             tk = fresh("t")
-            e(ind + 1, f'{tk} = "accfg.launch"({"".join(f"{v}, " for v in lv)}{arg}) <{{param_names = [{lnames}], accelerator = "{an}"}}> : ({"".join(f"{vty}, " for _ in lv)}!accfg.state<"{an}">) -> !accfg.token<"{an}">')
-            e(ind + 1, f'"accfg.await"({tk}) : (!accfg.token<"{an}">) -> ()')
+            hi = ind + 1
+            if s["head_launch"] == "if":
+                e(hi, f'scf.if {["%b0", "%b1", "%b2"][len(s["body"]) % 3]} {{')
+                hi += 1
+            e(hi, f'{tk} = "accfg.launch"({"".join(f"{v}, " for v in lv)}{arg}) <{{param_names = [{lnames}], accelerator = "{an}"}}> : ({"".join(f"{vty}, " for _ in lv)}!accfg.state<"{an}">) -> !accfg.token<"{an}">')
+            e(hi, f'"accfg.await"({tk}) : (!accfg.token<"{an}">) -> ()')
+            if s["head_launch"] == "if":
+                e(ind + 1, "}")
         n_sl = sum(x["k"] == "sl" for x in s["body"])
         fresh_from = n_sl - min(s.get("stale_yield", 0), n_sl)  # setups from this one on are not part of the old threading
         seen, yielded = 0, arg
@@ -556,6 +563,8 @@ def shrink_body(body):
             yield body[:i] + [{kk: vv for kk, vv in s.items() if kk != "stale_yield"}] + body[i + 1 :]
         if k == "for" and s.get("head_launch"):
             yield body[:i] + [{kk: vv for kk, vv in s.items() if kk != "head_launch"}] + body[i + 1 :]
+            if s["head_launch"] == "if":
+                yield body[:i] + [dict(s, head_launch=True)] + body[i + 1 :]
         if k == "for":
             for fld, simple in (("lb", "%c0"), ("step", "%c1"), ("ub", "%c1"), ("ub", "%c2")):
                 if s[fld] != simple and not (fld == "ub" and s[fld] in ("%c1", "%c2")):
